@@ -123,8 +123,28 @@ def seed_digests(cases, seed):
 # network scenarios: the same program executed again in an interpreter that has already run (and stopped midway) other
 # simulations must give the trace a fresh interpreter gives -- nothing may survive from one Environment to the next
 
-NET_PARTS = ["wire", "port", "bucket", "mq", "drr", "wfq"]
+NET_PARTS = ["wire", "port", "bucket", "mq", "drr", "wfq", "route", "gensink"]
+# whole plugins used as further scenario sources (their gen_case/run_impl; no truncation hook: the polluting executions of
+# these run to their end): routing elements incl. hubs with string element ids and fat trees, closed TCP loops, timers
+NET_PLUGINS = {"c18": None, "c16": ("loop",), "c19": None}
 _NET = {}
+
+
+class _PluginSource:
+    """a property plugin seen through the part protocol (gen_case(rng, tier, prop_id), run_impl(case))"""
+
+    def __init__(self, prop, kinds):
+        self.prop, self.kinds = prop, kinds
+
+    def gen_case(self, rng, tier, _pid):
+        for _ in range(200):
+            c = self.prop.gen_case(rng, tier)
+            if self.kinds is None or c.get("kind") in self.kinds:
+                return c
+        return c
+
+    def run_impl(self, case):
+        return self.prop.run_impl(case)
 
 
 def net_parts():
@@ -135,6 +155,11 @@ def net_parts():
         for n in NET_PARTS:
             try:
                 _NET["parts"][n] = importlib.import_module("props.part_" + n).PART
+            except BaseException as e:
+                _NET["skipped"].append(f"{n}: {type(e).__name__}: {str(e)[:80]}")
+        for n, kinds in NET_PLUGINS.items():
+            try:
+                _NET["parts"][n] = _PluginSource(importlib.import_module("props." + n).PROP, kinds)
             except BaseException as e:
                 _NET["skipped"].append(f"{n}: {type(e).__name__}: {str(e)[:80]}")
     return _NET["parts"]
@@ -455,6 +480,43 @@ def shaped_horizon(rng):
     return case
 
 
+def shaped_bigint(rng):
+    """an integer clock far above 2**53 (nanoseconds since an epoch, ticks): initial_time, every delay and every horizon are
+    Python ints, so the real kernel computes exactly, as the model does over Q; horizons and expiries sit OFF the binary64
+    grid (spacing 256 at this magnitude), so any detour of an instant through float shows"""
+    base = rng.choice([2 ** 60, 1_700_000_000_000_000_000, 2 ** 53 + 2 ** 40]) + rng.choice([1, 3, 77, 1001])
+    n = rng.randint(2, 4)
+    ds = [rng.choice([1, 2, 3, 5, 50, 129, 1000]) for _ in range(n)]
+    codes = []
+    for i, d in enumerate(ds):
+        body = [["timeout", ["L", 1], str(d), _v(rng)], ["yield", 1, ["reg", ["L", 1]], ["L", 2], "catch"], ["log", ["reg", ["L", 2]]]]
+        if rng.random() < 0.6:
+            body += [["timeout", ["L", 3], str(rng.choice([0, 1, 7, 255])), _v(rng)], ["yield", 2, ["reg", ["L", 3]], ["L", 4], "catch"],
+                     ["log", ["int", 10 + i]]]
+        codes.append(body)
+    setup = [["spawn", ["G", i], i, ["none"]] for i in range(n)]
+    d0 = rng.choice(ds)
+    if rng.random() < 0.5:
+        setup.append(["timeout", ["G", 10], str(d0), _v(rng)])
+        setup.append(["probe", ["G", 10], 1])
+    t0 = Fraction(base)
+    at = t0 + d0
+    case = {"kind": "split", "family": "bigint", "t0": kc.qs(t0), "codes": codes, "setup": setup, "plans": [[["run"]] * DRAIN]}
+    tail = [["run"]] * DRAIN
+    pool = [
+        [["run_num", kc.qs(at)]],
+        [["run_num", kc.qs(at)], ["run_num", kc.qs(at)]],                      # second: ValueError
+        [["run_num", kc.qs(at - 1)], ["run_num", kc.qs(at)], ["run_num", kc.qs(at + 1)]],
+        [["run_num", kc.qs(t0 + 1)], ["run_num", kc.qs(at + max(ds))]],
+        [["step", rng.choice([1, 2, 4])], ["run_num", kc.qs(at + 1)], ["step", 1]],
+        [["run_num", kc.qs(t0)]] + [["run_num", kc.qs(at)]],                   # horizon == initial time: ValueError
+        [["run_ev", 0], ["run_num", kc.qs(at + 50)]],
+    ]
+    for p in rng.sample(pool, 3):
+        case["plans"].append(p + tail)
+    return case
+
+
 def shaped_exhausted(rng):
     """run(until=event) where the agenda runs dry first (the event is never triggered, or only a process that waits for
     something untriggered would trigger it); later the event is triggered from module level -- not in a split plan, so the
@@ -721,6 +783,8 @@ class C03(Prop):
             return shaped_horizon(rng)
         if r < 0.27:
             return shaped_exhausted(rng)
+        if r < 0.31:
+            return shaped_bigint(rng)
         return bundle_of(rng, kc.gen_case(rng, KNOBS))
 
     def run_impl(self, case):
@@ -911,7 +975,7 @@ class C03(Prop):
         """network scenarios (the element parts' case streams): in-process execution after truncated executions of the same
         part == execution in a fresh interpreter, under several PYTHONHASHSEED values"""
         parts = net_parts()
-        n_total = 36 if tier == "quick" else 400
+        n_total = 66 if tier == "quick" else 700
         seeds = [1, 4242] if tier == "quick" else [0, 1, 7, 4242]
         per = max(1, n_total // max(1, len(parts)))
         items = []                                            # (part, case, polluters, ks)
